@@ -15,7 +15,7 @@ import sc_values as V
 from sc_values import attr_name, decode, show
 
 PID = "C05"
-LEAN_TARGETS = ["SpecVerif.Props.C05"]
+LEAN_TARGETS = ["SpecVerif.Props.C05", "SpecVerif.Model.C05OvProto"]
 AUDIT = [("SpecVerif.Props.C05", "SpecVerif.Props.C05")]
 DRIVER = "Drivers/C05.lean"
 REQUIRED_THEOREMS = [
@@ -30,6 +30,11 @@ REQUIRED_THEOREMS = [
     "SpecVerif.Props.C05.missing_noop_partial",
     "SpecVerif.Props.C05.missing_constructs_witness",
     "SpecVerif.Props.C05.write_resets_dependants",
+    "SpecVerif.Props.C05.args_memo_never_stale",
+    "SpecVerif.Props.C05.ctor_keywords_from_signature",
+    "SpecVerif.Props.C05.ov_conservative",
+    "SpecVerif.Props.C05.with_keywords_builds_overflow",
+    "SpecVerif.Props.C05.overflow_collects_extras",
 ]
 RULE = (
     "case = class family (2 hand-written families + seeded random families from the grammar: int/str/bool/float/"
@@ -41,6 +46,12 @@ RULE = (
     "(value, keywords, value+keywords, transform, attribute transforms, no argument) x _inplace x _if, with `obj.a = v` "
     "and `del obj.a`; about half of the copy results are adopted as the next receiver, so later calls start from "
     "reachable (not fresh) states. Values mostly conform (7% sentinels MISSING/EMPTY/UNCHANGED, 6% non-conforming). "
+    "Nested classes whose constructor takes **kwargs (init_overflow_attr; plain, keyed, with a spec subclass, Optional, "
+    "lazily bootstrapped, the receiver's own class) with extra keyword names; directed 'repeat' histories: per "
+    "receiver class and nested attribute 4..7 constructions Class(**kw) through keywords / dict of constructor "
+    "arguments / assignment / update with DIFFERENT keyword sets, interleaved with constructions for other "
+    "attributes and classes; histories of `_get_function_args` calls on fresh constructors of every kind (builtin, "
+    "no __init__, lambda/def/class with fixed and **kwargs signatures, spec classes with and without overflow). "
     "A case is non-trivial per call that changed state, returned a new object or raised; distinct = distinct "
     "(family, pre-state, call) triples."
 )
@@ -53,6 +64,8 @@ ASSUMPTIONS = [
     "sets aimed at list attributes have at most one element (CPython set iteration order is not modelled)",
     "invalidated_by: dependants are plain attributes without preparers whose defaults conform (spec_property caches: C11/C12)",
     "frozen classes, do_not_copy, KeyedList/KeyedSet attributes and init=False are covered by C07/C02/C13/C14/C09",
+    "overflow classes (init_overflow_attr): no sentinel among the extra constructor keywords (it would sit inside the "
+    "collected dict); collections of overflow-class items are prepared by the overflow-free knot (not generated)",
 ]
 OPEN_STATEMENTS = [
     "MissingNoopFull (MISSING/EMPTY make every scalar helper a no-op returning the receiver) is refuted by "
@@ -217,6 +230,51 @@ FAMILY_INV = {
     ]
 }
 
+# nested spec classes whose generated constructor takes **kwargs (`init_overflow_attr`): plain, keyed, with a spec
+# subclass, Optional; next to an ordinary nested class, so that keyword constructions of different classes interleave
+FAMILY_OVF = {
+    "classes": [
+        {"id": 1, "kind": "spec", "base": None, "key": None, "ovf": 5, "attrs": [
+            A(0, INT, "value", "i1"), A(1, STR, "value", "s100", prep=2)]},
+        {"id": 2, "kind": "spec", "base": None, "key": 0, "ovf": 5, "attrs": [A(0, STR), A(1, INT, "value", "i1")]},
+        {"id": 3, "kind": "spec", "base": None, "key": None, "attrs": [
+            A(0, INT, "value", "i2"), A(1, STR, "value", "s101")]},
+        {"id": 4, "kind": "spec", "base": 1, "key": None, "over": {"0": "i7"}, "attrs": [A(2, INT, "value", "i3")]},
+        {"id": 0, "kind": "spec", "base": None, "key": None, "attrs": [
+            A(0, INT, "value", "i1"),
+            A(1, ["spec", 1]),
+            A(2, ["spec", 2]),
+            A(3, ["spec", 3]),
+            A(4, V.opt(["spec", 1]), "value", "N"),
+            A(5, ["spec", 1], prep=5),
+            A(6, STR, "value", "s100"),
+            A(7, ["spec", 4]),
+            A(8, ["spec", 1]),
+        ]},
+        {"id": 5, "kind": "plain", "base": 0, "over": {"0": "i4"}},
+        {"id": 6, "kind": "spec", "base": 0, "key": None, "attrs": [A(9, ["spec", 2]), A(10, INT, "value", "i0")]},
+    ]
+}
+
+# the receiver's own class takes **kwargs (its `update(**kw)` accepts any keyword); a dependant of the overflow attribute
+FAMILY_OVFTOP = {
+    "classes": [
+        {"id": 1, "kind": "spec", "base": None, "key": None, "ovf": 9, "attrs": [A(0, INT, "value", "i1")]},
+        {"id": 0, "kind": "spec", "base": None, "key": None, "ovf": 9, "attrs": [
+            A(0, INT, "value", "i1"),
+            A(1, STR, "value", "s100"),
+            A(2, ["spec", 1]),
+            A(3, ["list", INT], "value", "L 0"),
+            A(4, INT, "value", "i7", inv=[9]),
+        ]},
+        {"id": 2, "kind": "plain", "base": 0, "over": {"1": "s101"}},
+    ]
+}
+
+EXTRA_NAMES = [40, 41, 42, 43, 44]           # keywords no class of any family manages ("a40" … "a44")
+EXTRA_VALUES = ["i1", "i4", "s100", "s102", "N", "T", "f3", "L 1 i1", "D 1 s100 i1", "L 0"]
+
+
 # a default that cannot be assigned (its preparer answers a non-conforming value): reset / del must raise
 # and leave everything as it was, also in place
 FAMILY_BADDEFAULT = {
@@ -260,6 +318,8 @@ def random_family(rng):
             key = 0
             attrs[0] = A(0, rng.choice([STR, INT]))
         classes.append({"id": nid, "kind": "spec", "base": None, "key": key, "attrs": attrs})
+        if rng.random() < 0.3:
+            classes[-1]["ovf"] = 30          # the constructor takes **kwargs
         nested_ids.append(nid)
         nid += 1
     if rng.random() < 0.5:
@@ -282,6 +342,8 @@ def random_family(rng):
             ty = V.opt(["spec", rng.choice(nested_ids)])
         attrs.append(rand_attr(rng, a, ty, nested_ids, allow_selfprep=(a > 0)))
     classes.append({"id": 0, "kind": "spec", "base": None, "key": None, "attrs": attrs})
+    if rng.random() < 0.12:
+        classes[-1]["ovf"] = 31
     top = 0
     fam = {"classes": classes}
     # subclasses: plain and/or spec, one or two levels
@@ -422,7 +484,22 @@ def gen_dict_for(rng, fam, cid):
     key = V.effective_key(fam, cid)
     if key is not None and all(ad["name"] != key for ad in chosen):
         chosen = [ad for ad in V.effective_attrs(fam, cid) if ad["name"] == key] + chosen
-    return " ".join(["D", str(len(chosen))] + [f"s{ad['name']} {gen_value(rng, fam, ad['ty'], 0)}" for ad in chosen])
+    have = {ad["name"] for ad in chosen}
+    items = [f"s{ad['name']} {gen_value(rng, fam, ad['ty'], 0)}" for ad in chosen]
+    items += [f"s{n} {v}" for n, v in gen_extras(rng, fam, cid) if n not in have]
+    return " ".join(["D", str(len(items))] + items)
+
+
+def gen_extras(rng, fam, cid, p=0.6):
+    """extra constructor keywords (names no class manages; now and then the overflow attribute's own name) for a
+    class whose constructor takes **kwargs; [] for the others"""
+    o = V.effective_ovf(fam, cid)
+    if o is None or rng.random() >= p:
+        return []
+    names = rng.sample(EXTRA_NAMES, rng.randint(1, 2))
+    if rng.random() < 0.1:
+        names.append(o)
+    return [[n, rng.choice(EXTRA_VALUES)] for n in names]
 
 
 def spec_member(ty):
@@ -458,9 +535,17 @@ def gen_arg(rng, fam, ad, sentinel_p=0.07, bad_p=0.06):
 
 def gen_kw(rng, fam, cid, lo=1, hi=3, sentinel_p=0.05):
     eff = V.effective_attrs(fam, cid)
-    chosen = rng.sample(eff, min(len(eff), rng.randint(lo, hi)))
+    ovf = V.effective_ovf(fam, cid) is not None
+    chosen = rng.sample(eff, min(len(eff), rng.randint(0 if ovf and lo > 0 else lo, hi)))
     rng.shuffle(chosen)
-    return [[ad["name"], gen_arg(rng, fam, ad, sentinel_p=sentinel_p)] for ad in chosen]
+    # (a sentinel handed to the constructor under the overflow attribute's own name would end up INSIDE the
+    #  collected dict: sentinels inside collections are outside the model and the documentation)
+    kw = [[ad["name"], gen_arg(rng, fam, ad, sentinel_p=0.0 if ad.get("ovf") else sentinel_p)] for ad in chosen]
+    if ovf:
+        have = {a for a, _ in kw}
+        kw += [x for x in gen_extras(rng, fam, cid, p=1.0 if not kw else 0.6) if x[0] not in have]
+        rng.shuffle(kw)
+    return kw
 
 
 TRS_INT = ["inc", "dbl", "neg", "idt", "cst i3", "cst i13"]
@@ -489,7 +574,12 @@ def gen_tr(rng, fam, ad):
 def gen_kt(rng, fam, cid, lo=1, hi=2):
     eff = V.effective_attrs(fam, cid)
     chosen = rng.sample(eff, min(len(eff), rng.randint(lo, hi)))
-    return [[ad["name"], gen_tr(rng, fam, ad)] for ad in chosen]
+    kt = [[ad["name"], gen_tr(rng, fam, ad)] for ad in chosen]
+    if V.effective_ovf(fam, cid) is not None and rng.random() < 0.3:
+        # a keyword the class does not manage: its "current value" is MISSING; an answer other than MISSING is
+        # stored as a plain instance attribute
+        kt.append([rng.choice(EXTRA_NAMES), rng.choice(["idt", "idt", "cst i3", "cst M"])])
+    return kt
 
 
 def gen_flags(rng):
@@ -572,7 +662,8 @@ def gen_case(rng, fam, fname, nops):
     eff = V.effective_attrs(fam, cid)
     init = []
     for ad in rng.sample(eff, rng.randint(0, min(4, len(eff)))):
-        init.append([ad["name"], gen_arg(rng, fam, ad, sentinel_p=0.02, bad_p=0.01)])
+        init.append([ad["name"], gen_arg(rng, fam, ad, sentinel_p=0.0 if ad.get("ovf") else 0.02, bad_p=0.01)])
+    init += [x for x in gen_extras(rng, fam, cid, p=0.5) if x[0] not in {a for a, _ in init}]
     ops = [gen_op(rng, fam, cid) for _ in range(nops)]
     return {"family": fam, "fname": fname, "cls": cid, "init": init, "ops": ops}
 
@@ -736,15 +827,216 @@ def prep_inherit_cases(rng, fam, fname):
                        "origin": "directed-inherited-preparer"}
 
 
+def ctor_kw(rng, fam, c, avoid=None):
+    """conforming constructor keywords of class `c` (no sentinels; the key mostly present; extra keywords when the
+    constructor takes **kwargs), with a name set different from `avoid`"""
+    eff = V.effective_attrs(fam, c)
+    key = V.effective_key(fam, c)
+    kw = []
+    for _ in range(6):
+        chosen = rng.sample(eff, rng.randint(0, min(3, len(eff))))
+        if key is not None and rng.random() < 0.85 and all(ad["name"] != key for ad in chosen):
+            chosen.append(attr_desc(fam, c, key))
+        kw = [[ad["name"], gen_value(rng, fam, ad["ty"], 0)] for ad in chosen
+              if not any(m[0] == "spec" for m in V.union_members(ad["ty"]))]
+        have = {a for a, _ in kw}
+        kw += [x for x in gen_extras(rng, fam, c, p=0.85) if x[0] not in have]
+        rng.shuffle(kw)
+        if kw and (avoid is None or {a for a, _ in kw} != avoid):
+            break
+    return kw
+
+
+def kw_as_dict(kw):
+    return " ".join(["D", str(len(kw))] + [f"s{a} {v}" for a, v in kw])
+
+
+def build_op(rng, ad, kw):
+    """one call that makes the library build `Class(**kw)` for attribute `ad`, through a random route"""
+    a = ad["name"]
+    routes = ["with-dict", "set-dict", "UPD-dict", "upd-dict"]
+    if ad["ty"][0] == "spec":
+        routes += ["with-kw", "with-kw", "with-kw", "upd-kw", "upd-kw", "with-E-kw"]
+    r = rng.choice(routes)
+    fl = rng.choice(["-", "-", "-", "i", "a"])
+    if r == "with-kw":
+        return {"k": "with", "fl": fl, "a": a, "v": "M", "kw": kw}
+    if r == "with-E-kw":
+        return {"k": "with", "fl": fl, "a": a, "v": "E", "kw": kw}
+    if r == "upd-kw":
+        return {"k": "upd", "fl": fl, "a": a, "v": "M", "kw": kw}      # constructs while unset, merges afterwards
+    if r == "with-dict":
+        return {"k": "with", "fl": fl, "a": a, "v": kw_as_dict(kw), "kw": []}
+    if r == "upd-dict":
+        return {"k": "upd", "fl": fl, "a": a, "v": kw_as_dict(kw), "kw": []}
+    if r == "set-dict":
+        return {"k": "set", "a": a, "v": kw_as_dict(kw)}
+    return {"k": "UPD", "fl": fl, "v": "M", "kw": [[a, kw_as_dict(kw)]]}
+
+
+def memo_cases(rng, fam, fname, rounds=1):
+    """
+    Nothing learnt while building one nested value may leak into the next: for every receiver class and every
+    attribute holding a nested spec class, a history of 4..7 constructions `Class(**kw)` through the helpers
+    (keywords, dict of constructor arguments, assignment, update) in which successive calls use DIFFERENT keyword
+    sets (disjoint, overlapping, subsets, extra keywords for **kwargs constructors), interleaved with constructions
+    for other attributes of the same and of other classes, by copy, in place and on adopted results.
+    """
+    for cid in top_classes(fam):
+        eff = V.effective_attrs(fam, cid)
+        nested = [ad for ad in eff if spec_member(ad["ty"]) is not None and ad.get("prep") is None]
+        for ad in nested:
+            for _ in range(rounds):
+                ops, last = [], {}
+                for _ in range(rng.randint(4, 7)):
+                    tgt = ad if rng.random() < 0.65 else rng.choice(nested)
+                    c = spec_member(tgt["ty"])
+                    kw = ctor_kw(rng, fam, c, avoid=last.get(c))
+                    if not kw:
+                        continue
+                    last[c] = {a for a, _ in kw}
+                    ops.append(build_op(rng, tgt, kw))
+                yield {"family": fam, "fname": fname, "cls": cid, "init": [], "ops": ops, "origin": "directed-repeat"}
+
+
+# --- `_get_function_args` and its per-function memo, on constructors of every kind ---------------------------
+
+ARG_SHAPES = ["builtin-int", "builtin-dict", "object", "lambda-fixed", "def-fixed", "class-fixed", "lambda-varkw",
+              "def-varkw", "class-varkw", "spec", "spec-ovf", "spec-ovf", "class-varkw", "lambda-varkw"]
+SELF = 9000
+
+
+def args_case(rng):
+    fns = []
+    for i in range(rng.randint(2, 4)):
+        shape = rng.choice(ARG_SHAPES)
+        ps = sorted(rng.sample(range(0, 7), rng.randint(0, 3)))
+        if shape.startswith("spec") and not ps:
+            ps = [0]
+        if shape == "object" or shape.startswith("builtin"):
+            ps = []
+        fns.append({"id": i, "shape": shape, "ps": ps})
+    calls = []
+    f = rng.choice(fns)
+    for _ in range(rng.randint(4, 10)):
+        if rng.random() < 0.4:
+            f = rng.choice(fns)
+        names = sorted(rng.sample(list(range(0, 7)) + EXTRA_NAMES, rng.randint(0, 3)))
+        calls.append([f["id"], names])
+    return {"kind": "args", "fname": "args", "fns": fns, "calls": calls, "origin": "args-memo"}
+
+
+def args_sig(fd):
+    """what the documentation of Python's call syntax says about the constructor (written from the shape)"""
+    shape, ps = fd["shape"], fd["ps"]
+    if shape.startswith("builtin"):
+        return "builtin"
+    if shape == "object":
+        return "object"
+    ps = ([SELF] if shape.startswith(("class", "spec")) else []) + list(ps)
+    kind = "varkw" if shape.endswith(("varkw", "ovf")) else "fixed"
+    return " ".join([kind, str(len(ps))] + [str(x) for x in ps])
+
+
+def args_fn(fd):
+    """a FRESH constructor of the described shape (its memo starts empty, as the model's does)"""
+    shape, ps = fd["shape"], [attr_name(p) for p in fd["ps"]]
+    if shape == "builtin-int":
+        return int
+    if shape == "builtin-dict":
+        return dict
+    if shape == "object":
+        return type("NoInit", (), {})
+    if shape.startswith("spec"):
+        fam = {"classes": [{"id": 1, "kind": "spec", "base": None, "key": None,
+                            "attrs": [A(p, INT, "value", "i0") for p in fd["ps"]]}]}
+        if shape == "spec-ovf":
+            fam["classes"][0]["ovf"] = 30
+        return V.build_family(fam, fresh=True)[1]
+    tail = ["**kw"] if shape.endswith("varkw") else []
+    if shape.startswith("lambda"):
+        return eval("lambda " + ", ".join([f"{p}=0" for p in ps] + tail) + ": None")
+    if shape.startswith("def"):
+        ns = {}
+        exec("def made(" + ", ".join([f"{p}=0" for p in ps] + tail) + "):\n    return None", ns)
+        return ns["made"]
+    init = eval("lambda " + ", ".join(["self"] + [f"{p}=0" for p in ps] + tail) + ": None")
+    return type("WithInit", (), {"__init__": init})
+
+
+def args_name_id(name):
+    if name == "self":
+        return SELF
+    if name[:1] == "a" and name[1:].isdigit():
+        return int(name[1:])
+    return 9999
+
+
+def args_run(case):
+    """the history on the real `_get_function_args`; -> (functions, answers as sorted id lists)"""
+    from spec_classes.utils.mutation import _get_function_args
+
+    fns = {fd["id"]: args_fn(fd) for fd in case["fns"]}
+    out = []
+    for f, names in case["calls"]:
+        got = _get_function_args(fns[f], {attr_name(n): 0 for n in names})
+        out.append(sorted({args_name_id(x) for x in got}))
+    return fns, out
+
+
+def args_accepts(fd, fn, name):
+    """does calling the constructor with keyword `name` work? (Python's own answer, by calling it)"""
+    if name in fd["ps"]:
+        return True
+    try:
+        fn(**{attr_name(name): 0})
+        return True
+    except TypeError:
+        return False
+
+
+def args_oracle(case):
+    viol = []
+    fns, answers = args_run(case)
+    by_id = {fd["id"]: fd for fd in case["fns"]}
+    for i, ((f, names), ans) in enumerate(zip(case["calls"], answers)):
+        fd = by_id[f]
+        if fd["shape"].startswith("builtin"):
+            if ans:
+                viol.append(f"call#{i}: keywords {ans} would be passed to the builtin {fd['shape']}")
+            continue
+        for n in names:
+            acc = args_accepts(fd, fns[f], n)
+            if acc != (n in ans):
+                viol.append(f"call#{i} ({fd['shape']} {fd['ps']}, keywords {names}): keyword a{n} is "
+                            f"{'accepted' if acc else 'rejected'} by the constructor but the lookup answers {ans}")
+    return viol
+
+
 def gen_cases(tier, rng):
     nfam = {"quick": 5, "thorough": 40, "search": 12}[tier]
     fams = [("main", FAMILY_MAIN), ("prep", FAMILY_PREP), ("falsy", FAMILY_FALSY), ("inv", FAMILY_INV),
             ("lazy", lazy_variant(FAMILY_PREP))] + [(f"rnd{i}", random_family(rng)) for i in range(nfam)]
+    ovfs = [("ovf", FAMILY_OVF), ("ovflazy", lazy_variant(FAMILY_OVF)), ("ovftop", FAMILY_OVFTOP)]
     if tier == "search":
+        fams = fams + ovfs
         while True:
+            r = rng.random()
             fname, fam = rng.choice(fams)
-            yield gen_case(rng, fam, fname, rng.randint(1, 8))
+            if r < 0.04:
+                yield args_case(rng)
+            elif r < 0.14:
+                yield from memo_cases(rng, fam, fname)
+            else:
+                yield gen_case(rng, fam, fname, rng.randint(1, 8))
         return
+    # constructions repeated with different keyword sets (per-function / per-class memos must not go stale)
+    for fname, fam in ovfs + fams[:5] + (fams[5:7] if tier == "quick" else fams[5:]):
+        yield from memo_cases(rng, fam, fname, rounds=2 if fam is FAMILY_OVF or tier != "quick" else 1)
+    for _ in range(60 if tier == "quick" else 1500):
+        yield args_case(rng)
+    for fname, fam in ovfs:
+        yield from directed_cases(rng, fam, fname)
     # directed: defaults of the receiver's own class, reset after unset attributes, falsy values
     for fname, fam in fams[:5] + (fams[5:7] if tier == "quick" else fams[5:]):
         yield from directed_cases(rng, fam, fname)
@@ -756,6 +1048,8 @@ def gen_cases(tier, rng):
     n = 1000 if tier == "quick" else 22000
     for i in range(n):
         fname, fam = fams[i % len(fams)] if rng.random() < 0.7 else rng.choice(fams[:5])
+        if rng.random() < 0.15:
+            fname, fam = rng.choice(ovfs)
         yield gen_case(rng, fam, fname, rng.randint(4, 14))
 
 
@@ -790,9 +1084,22 @@ def op_line(op):
     raise ValueError(op)
 
 
-def model_lines(case):
+def is_args(case):
+    return case.get("kind") == "args"
+
+
+def n_header(case):
+    """protocol lines before the `new` line: reset, the class table, the overflow declarations"""
     fam = case["family"]
-    return (["reset"] + V.class_lines(fam) + [f"new {case['cls']} {kw_tokens(case['init'])}"]
+    return 1 + len(fam["classes"]) + len(V.ovf_lines(fam))
+
+
+def model_lines(case):
+    if is_args(case):
+        return (["reset"] + [f"sig {fd['id']} {args_sig(fd)}" for fd in case["fns"]]
+                + [f"args {f} {len(names)} " + " ".join(str(n) for n in names) for f, names in case["calls"]])
+    fam = case["family"]
+    return (["reset"] + V.class_lines(fam) + V.ovf_lines(fam) + [f"new {case['cls']} {kw_tokens(case['init'])}"]
             + [op_line(op) for op in case["ops"]])
 
 
@@ -862,9 +1169,12 @@ def construct_real(classes, case):
 
 
 def real_lines(case):
+    if is_args(case):
+        _, answers = args_run(case)
+        return ["ok"] * (1 + len(case["fns"])) + [" ".join(["args"] + [str(x) for x in ans]) for ans in answers]
     fam = case["family"]
     classes = V.build_family(fam)
-    out = ["ok"] * (1 + len(fam["classes"]))
+    out = ["ok"] * n_header(case)
     try:
         recv = construct_real(classes, case)
         out.append("ok ;; " + show(recv))
@@ -920,7 +1230,7 @@ def snap(v):
     if V.is_spec_instance(v):
         cls = type(v)
         f = {}
-        for a in cls.__verif_attrs__:
+        for a in V.field_ids(v):
             x = v.__dict__.get(attr_name(a), V.S("MISSING"))
             if x is not V.S("MISSING"):
                 f[a] = snap(x)
@@ -1107,7 +1417,11 @@ def doc_construct(fam, cid, kw):
     """a freshly built instance: keyword value or class default for every attribute, in declaration order"""
     eff = V.effective_attrs(fam, cid)
     names = [ad["name"] for ad in eff]
-    kwd = dict(kw)
+    ovf = V.effective_ovf(fam, cid)
+    # init_overflow_attr: "any extra keyword arguments passed to the constructor will be collected as a dictionary
+    # and set as an attribute of this name" (the attribute is not a constructor argument itself)
+    extra = {attr_name(a): v for a, v in kw if ovf is not None and (a not in names or a == ovf)}
+    kwd = {a: v for a, v in kw if attr_name(a) not in extra}
     for a in kwd:
         if a not in names:
             raise DocError("unexpected keyword")
@@ -1125,6 +1439,10 @@ def doc_construct(fam, cid, kw):
             if is_sentinel(v):
                 raise Undoc("sentinel keyword in a constructor")
             inst = doc_assign(fam, inst, ad["name"], v, invalidate=False)   # nothing to invalidate while constructing
+    if ovf is not None:
+        if any(is_sentinel(v) for v in extra.values()):
+            raise Undoc("sentinel keyword in a constructor")
+        inst = doc_assign(fam, inst, ovf, extra, invalidate=False)
     return inst
 
 
@@ -1165,7 +1483,10 @@ def doc_apply(fam, classes, pre, op):
         kwc = ad["ty"][1] if ad["ty"][0] == "spec" else None
     if k in ("with", "upd", "tra"):
         names = [x[0] for x in (op["kw"] if k != "tra" else op["kt"])]
-        if names and (kwc is None or any(attr_desc(fam, kwc, n) is None for n in names)):
+        # (a class that collects extra constructor keywords accepts any keyword; one that is merged into an existing
+        #  value instead of being passed to the constructor is "unmanaged attribute" below)
+        if names and (kwc is None or (V.effective_ovf(fam, kwc) is None
+                                      and any(attr_desc(fam, kwc, n) is None for n in names))):
             raise Undoc("keywords not accepted")
     if k in ("UPD", "TRA"):
         names = [x[0] for x in (op["kw"] if k == "UPD" else op["kt"])]
@@ -1399,6 +1720,8 @@ def relational(classes, fam, pre, op):
 
 
 def oracle(case):
+    if is_args(case):
+        return args_oracle(case)
     fam = case["family"]
     classes = V.build_family(fam)
     viol = []
@@ -1474,8 +1797,13 @@ def oracle(case):
 
 
 def nontrivial(case, real):
+    if is_args(case):
+        shapes = {fd["id"]: fd["shape"] for fd in case["fns"]}
+        n0 = 1 + len(case["fns"])
+        return [("args", shapes[f], tuple(names), real[n0 + i]) for i, (f, names) in enumerate(case["calls"])
+                if n0 + i < len(real)]
     keys = []
-    base = 1 + len(case["family"]["classes"])
+    base = n_header(case)
     for i, op in enumerate(case["ops"]):
         j = base + 1 + i
         if j >= len(real):
@@ -1488,9 +1816,17 @@ def nontrivial(case, real):
 
 
 def tags(case, real):
-    t = [f"family:{case['fname'][:3]}", f"class:{'sub' if case['cls'] != 0 else 'top'}",
+    if is_args(case):
+        shapes = {fd["id"]: fd["shape"] for fd in case["fns"]}
+        t = ["family:args", "origin:args-memo"]
+        seen = set()
+        for f, names in case["calls"]:
+            t.append(f"args:{shapes[f]}:{'repeat' if f in seen else 'first'}")
+            seen.add(f)
+        return t
+    t = [f"family:{case['fname'][:6]}", f"class:{'sub' if case['cls'] != 0 else 'top'}",
          f"origin:{case.get('origin', 'random')}"]
-    base = 1 + len(case["family"]["classes"])
+    base = n_header(case)
     t.append("ctor:" + real[base].split(" ")[0])
     for i, op in enumerate(case["ops"]):
         j = base + 1 + i
@@ -1506,14 +1842,24 @@ def tags(case, real):
         elif op["k"] in ("tra", "TRA"):
             form = ("f" if op["f"] else "") + ("kt" if op["kt"] else "")
         t.append(f"op:{op['k']}:{form or '-'}")
+        if any(a in EXTRA_NAMES for a, _ in (op.get("kw") or []) + (op.get("kt") or [])):
+            t.append(f"extra-keywords:{op['k']}:{'v' if op.get('v', 'M') != 'M' or op.get('f') else 'kw-only'}")
         t.append(f"flags:{'inplace' if 'i' in fl else 'copy'}:{'if=False' if 'n' in fl else 'if=True'}")
         t.append("out:" + (head[0] if head[0] != "err" else "err:" + head[1]))
     return t
 
 
 def shrink(case, at=None):
+    if is_args(case):
+        calls = case["calls"]
+        n0 = 1 + len(case["fns"])
+        if at is not None and at >= n0:
+            yield {**case, "calls": calls[: at - n0 + 1]}
+        for i in range(len(calls)):
+            yield {**case, "calls": calls[:i] + calls[i + 1:]}
+        return
     ops = case["ops"]
-    base = 1 + len(case["family"]["classes"]) + 1
+    base = n_header(case) + 1
     if at is not None and at >= base:
         yield {**case, "ops": ops[: at - base + 1]}
     for i in range(len(ops)):
@@ -1523,7 +1869,7 @@ def shrink(case, at=None):
 
 
 MANIFEST_ENTRY = {
-    "level_text": "Lean 4 proof that the Impl model of the scalar and top-level helpers (mutate_value's eight steps, prepare_attr_value, mutate_attr, the generated __init__/__setattr__/__delattr__, with_/update_/transform_/reset_<attr>, update/transform/reset, for any class table, any pure preparers/transforms, any fuel) refines a direct transcription of the documentation (Spec.Doc.apply), that the in-place run leaves on the receiver exactly the state the copy run returns and returns the receiver, that obj.a = v is with_a(v, _inplace=True), update(**kw) is the fold of with_<a>, with_a(**kw) stores the freshly constructed nested instance, del is reset_<a>(_inplace=True), and that _if=False and UNCHANGED are no-ops returning the receiver; MISSING is a no-op only under the negation of the finding's matcher (missing_noop_partial) and a decided witness refutes the full statement. The model is tied to /repo on every run by executing the same call histories (every helper x call form x _inplace x _if, from reachable states, over hand-written and random class families) on the real classes and on the model and comparing returned object, exception class and receiver state after every call; an independent interpreter of the documentation over plain containers and relational checks on the real code judge every case.",
+    "level_text": "Lean 4 proof that the Impl model of the scalar and top-level helpers (mutate_value's eight steps, prepare_attr_value, mutate_attr, the generated __init__/__setattr__/__delattr__, with_/update_/transform_/reset_<attr>, update/transform/reset, for any class table, any pure preparers/transforms, any fuel) refines a direct transcription of the documentation (Spec.Doc.apply), that the in-place run leaves on the receiver exactly the state the copy run returns and returns the receiver, that obj.a = v is with_a(v, _inplace=True), update(**kw) is the fold of with_<a>, with_a(**kw) stores the freshly constructed nested instance, del is reset_<a>(_inplace=True), and that _if=False and UNCHANGED are no-ops returning the receiver; MISSING is a no-op only under the negation of the finding's matcher (missing_noop_partial) and a decided witness refutes the full statement. The model is tied to /repo on every run by executing the same call histories (every helper x call form x _inplace x _if, from reachable states, over hand-written and random class families) on the real classes and on the model and comparing returned object, exception class and receiver state after every call; an independent interpreter of the documentation over plain containers and relational checks on the real code judge every case. Constructors that take **kwargs (init_overflow_attr) and the per-function memo of _get_function_args are modelled in Model/C05Ov.lean: the memo never changes an answer over any call history (args_memo_never_stale), the constructor keywords are a function of the signature and of the keywords of the call (ctor_keywords_from_signature), with_a(**kw) stores the value built from every keyword of that call (with_keywords_builds_overflow), the overflow attribute holds exactly the extra keywords in call order (overflow_collects_extras), and the overflow-aware model coincides with the original one on class tables without overflow classes (ov_conservative); tied to /repo by histories of repeated keyword constructions with different keyword sets and by histories of _get_function_args calls on fresh constructors.",
     "level_note": "Trusted: Lean kernel; axioms propext/Classical.choice/Quot.sound only; the hand-written value-level model (no object identities beyond 'the receiver itself is returned'), the class-family builder and the correspondence harness. Preparers/transforms pure and total. transform_/update_ store through the assignment pipeline (preparer re-applied). Open finding KF-C05-missing-constructs: MISSING/EMPTY default-construct the annotation instead of being a no-op.",
     "technique": "Lean 4 refinement + algebraic-law proofs over a hand-written model; differential correspondence against the real helpers; documentation interpreter as independent oracle",
 }
